@@ -470,6 +470,10 @@ def run_part(args, flavours, wd, rl, par, drv_ok=True, sigfn=None):
                 sg = None
                 if c.recursive and (oc.token() in ("sig11", "sig6") or (oc.kind == "san" and re.search(rb"stack-overflow", oc.err))):
                     sg = "function-recursive-call-stack-overflow"
+                elif c.recursive and oc.kind == "timeout" and len(re.findall(r"([A-Za-z][A-Za-z0-9]*)\s*\(", " ".join(a[-1] for _n, a in c.defs if a))) >= 2:
+                    # a formula that reaches its own function through two or more calls: every level of the NESTMAX-deep recursion evaluates
+                    # all of them, the number of evaluations (and of reported errors) grows like 2^NESTMAX
+                    sg = "function-recursive-call-exponential-time"
                 spec_fail.append(dict(sig=sg, why="FUNCTION: asl did not end with a documented status within the CPU limit, a malformed definition was not reported, "
                                                   "or a call printed another value than the formula with the arguments inserted", **info))
             elif kv.get("corr") == "0":
